@@ -5,7 +5,7 @@ use crate::{
     base::{BlockType, ParamKey, TokenResult},
     utils,
 };
-use std::sync::{atomic::Ordering, Arc, Weak};
+use crate::vsync::{atomic::Ordering, Arc, Weak};
 
 #[derive(Debug)]
 pub struct RejectChecker<C: CounterTrait = Counter> {
@@ -123,7 +123,7 @@ impl<C: CounterTrait> Checker<C> for RejectChecker<C> {
                     last_add_token_time_arc.store(current_time_in_ms, Ordering::SeqCst);
                     return TokenResult::new_pass();
                 }
-                std::thread::yield_now();
+                crate::vsync::yield_now();
             } else {
                 //check whether the rest of token is enough to batch
                 if let Some(old_qps_arc) = token_counter.get(&arg) {
@@ -151,7 +151,7 @@ impl<C: CounterTrait> Checker<C> for RejectChecker<C> {
                         );
                     }
                 }
-                std::thread::yield_now();
+                crate::vsync::yield_now();
             }
         }
     }
